@@ -328,5 +328,52 @@ theorem init_good (k : Kind) (fields : List K) (b : Base K) (vals : List (List K
     have hc := configure_valid_ok k ({ valid := true, value := v, grad := zeros v.length, stats := [] } : Param K) rfl
     exact ⟨hc.2.1, hc.2.2⟩
 
+/-! ### repeated interruption: `Good` and `checkpoint` are functions of `obs` -/
+
+theorem sigs_of_obs (s s' : State K) (h : obs s = obs s') : s'.ps.map sig = s.ps.map sig := by
+  have hp := congrArg
+    (fun (x : Opt K × List (Bool × List K × List (String × List K))) =>
+      x.2.map (fun e => (e.1, e.2.2.map (fun y => y.1)))) h
+  simp only [obs, List.map_map] at hp
+  exact hp.symm
+
+theorem Good_of_obs (k : Kind) (s s' : State K) (h : obs s = obs s') (g : Good k s) : Good k s' := by
+  have ho : s'.o = s.o := (congrArg Prod.fst h).symm
+  have hs := sigs_of_obs s s' h
+  have hl : s'.ps.length = s.ps.length := by simpa using congrArg List.length hs
+  refine ⟨by rw [ho]; exact g.kind, by rw [ho]; exact g.arity, by rw [ho, hl]; exact g.reg, ?_⟩
+  rw [hs]
+  exact g.ok
+
+theorem checkpoint_of_obs (s s' : State K) (h : obs s = obs s') : checkpoint s = checkpoint s' := by
+  have ho : s.o = s'.o := congrArg Prod.fst h
+  have hp := congrArg
+    (fun (x : Opt K × List (Bool × List K × List (String × List K))) => x.2.map (fun e => (e.2.1, e.2.2))) h
+  simp only [obs, List.map_map] at hp
+  simp only [checkpoint, ho]
+  congr 1
+
+/-- training in segments of lengths `ns`, every segment followed by a
+checkpoint into a file and a restore into fresh objects (the process is
+stopped and started again after each segment) -/
+def trainResumed (F : Fns K) (G : Nat → List (List K) → List (List K)) (k : Kind) : Nat → List Nat → State K → State K
+  | _, [], s => s
+  | t, n :: ns, s => trainResumed F G k (t + n) ns (restore F k (checkpoint (train F G t n s)))
+
+theorem trainResumed_obs (F : Fns K) (G : Nat → List (List K) → List (List K)) (k : Kind) (ns : List Nat) (t : Nat)
+    (s : State K) (h : Good k s) :
+    obs (trainResumed F G k t ns s) = obs (train F G t ns.sum s) ∧ Good k (trainResumed F G k t ns s) := by
+  induction ns generalizing t s with
+  | nil => exact ⟨rfl, h⟩
+  | cons n ns ih =>
+    have hg : Good k (train F G t n s) := Good_train F G k n t s h
+    have hr := restore_checkpoint F k _ hg
+    have hgr : Good k (restore F k (checkpoint (train F G t n s))) := Good_of_obs k _ _ hr.symm hg
+    obtain ⟨h1, h2⟩ := ih (t + n) _ hgr
+    refine ⟨?_, h2⟩
+    simp only [trainResumed, List.sum_cons]
+    rw [h1, train_add]
+    exact train_frame F G ns.sum (t + n) _ _ hr
+
 end
 end Primitiv.Opt
